@@ -49,7 +49,7 @@ AllDevs == {"WhitespaceOnlyTail", "NoSeparatorHeader", "PartEmptyGroupSlice",
             "BodystructureSizeIncludesHeader"}
 
 RawRepaired == {"WhitespaceOnlyTail", "NoSeparatorHeader",
-                "PartEmptyGroupSlice"} \subseteq Fixed
+                "PartEmptyGroupSlice"} \cap Fixed # {}
 SizeRepaired == "BodystructureSizeIncludesHeader" \in Fixed
 
 \* values for the configuration files (cfg syntax has no tuples)
